@@ -232,6 +232,34 @@ func init() {
 		},
 		outside: "src == dst (self-transfer; not in the quantifier); longer stacks",
 	})
+
+	register(&property{
+		id: "C17",
+		gen: func(tier string, seed int) []symx.CaseSpec {
+			var out []symx.CaseSpec
+			for i := range auto.Stack {
+				out = append(out, cs("VH_C17_Stack", i, 0), cs("VH_C17_Stack", i, 1))
+			}
+			for i := range auto.Cond {
+				out = append(out, cs("VH_C17_Cond", i, 0), cs("VH_C17_Cond", i, 1), cs("VH_C17_Cond", i, 2))
+			}
+			for i := range auto.Aux {
+				out = append(out, cs("VH_C17_Aux", i))
+			}
+			for i := range auto.Funcs {
+				out = append(out, cs("VH_C17_Func", i))
+			}
+			for n := 0; n <= q(tier, 3, 5); n++ {
+				out = append(out, cs("VH_C17_ResetFree", n))
+			}
+			return out
+		},
+		boundsText: map[string]string{
+			"quick":    "every exported method of Stack, Condition, Auxiliary and every exported package-level function of the tree under test (enumerated from go/types at run time) x receiver states {zero value, freed, Init()-only Condition, nil Auxiliary} x argument variants (ints/bools: all values; strings: 4; any: catalogue of 24 awkward values; variadics of length 0..2; closures nil/inert); Reset/Free on arbitrary stacks of length<=3 with nil elements",
+			"thorough": "as quick with Reset/Free on lengths<=5",
+		},
+		outside: "argument values outside the catalogue; string results are not constrained (documented sentinels such as <invalid_stack>, unspecified, uninitialized)",
+	})
 }
 
 var _ = fmt.Sprint
